@@ -100,7 +100,7 @@ func init() {
 		},
 		Subs: []h.Sub{
 			{
-				Name: "round-trip-and-respell", Count: h.Fixed(5000, 400000),
+				Name: "round-trip-and-respell", Count: h.Fixed(5000, 4000000),
 				Run: func(c *h.Ctx, idx uint64, r *h.Rand) {
 					o := []*gen.GeomOpts{optsFin, optsExp, optsExp, optsOrd}[r.Intn(4)]
 					var g orb.Geometry
